@@ -9,6 +9,7 @@ package main
 import (
 	"bytes"
 	"context"
+	"crypto/sha256"
 	"fmt"
 	"sort"
 	"sync"
@@ -55,6 +56,18 @@ type byzPlan struct {
 	ReverseVersionsFor map[uint16]bool
 	// WithholdPayloadFrom: these nodes get no payload at all (only vouchers).
 	WithholdPayloadFrom map[uint16]bool
+	// CopyAs: broadcast version v is additionally transmitted, at the moment it is emitted, under the transport identity of an
+	// accomplice to the given nodes (the accomplice broadcasts the same bytes as its own message)
+	CopyAs map[uint8]copyAs
+	// ReflectOnlyVersion: with ReflectAcks, an acknowledgement of node h is reflected only if it vouches for this broadcast version
+	// of the sender (recognised by content: it contains the SHA-256 of that version's bytes, with or without the frame marker);
+	// a targeted accomplice instead of one that reflects everything
+	ReflectOnlyVersion map[uint16]uint8
+}
+
+type copyAs struct {
+	As uint16
+	To []uint16
 }
 
 // outsiderPlan: a node that is not part of the session replays what it observes.
@@ -63,6 +76,8 @@ type outsiderPlan struct {
 	// every MPC packet delivered to `Tap` is copied and injected from ID to Victims
 	Tap     uint16
 	Victims []uint16
+	// PayloadsOnly: acknowledgements are not replayed
+	PayloadsOnly bool
 }
 
 type oworld struct {
@@ -76,6 +91,7 @@ type oworld struct {
 	results  map[uint16]error
 	rmu      sync.Mutex
 	setupErr string
+	vdata    map[uint8][]byte // wire bytes of the broadcast versions emitted by Byzantine senders
 }
 
 var dkgTopic = cluster.Hash([]byte(tss.DkgTopicName))
@@ -112,7 +128,7 @@ func newOWorld(cfg oconfig) *oworld {
 		w.c.Net.SetInterceptor(id, w.byzInterceptor(id, plan))
 		real := w.c.Schemes[id]
 		w.c.Net.Attach(id, simnet.HandlerFunc(func(m *tss.IncMessage) {
-			if m.MsgType == uint8(tss.MsgTypeMPC) && bytes.Equal(m.Topic, w.topic) && plan.ReflectAcks && !w.isPayload(m.Data) {
+			if m.MsgType == uint8(tss.MsgTypeMPC) && bytes.Equal(m.Topic, w.topic) && plan.ReflectAcks && !w.isPayload(m.Data) && w.vouchesFor(plan, m.Source, m.Data) {
 				// an acknowledgement of an honest node: send the very same bytes back as our own transmission
 				w.c.Net.Inject(id, simnet.Outgoing{Dst: m.Source, Type: m.MsgType, Topic: m.Topic, Data: m.Data, Tag: "reflected-ack"})
 				if plan.ReflectTwice {
@@ -129,7 +145,7 @@ func newOWorld(cfg oconfig) *oworld {
 		tapped := w.c.Schemes[o.Tap]
 		prev := simnet.Handler(tapped)
 		w.c.Net.Attach(o.Tap, simnet.HandlerFunc(func(m *tss.IncMessage) {
-			if m.MsgType == uint8(tss.MsgTypeMPC) && m.Source != o.ID { // never replay one's own replays
+			if m.MsgType == uint8(tss.MsgTypeMPC) && m.Source != o.ID && (!o.PayloadsOnly || w.isPayload(m.Data)) { // never replay one's own replays
 				for _, v := range o.Victims {
 					w.c.Net.Inject(o.ID, simnet.Outgoing{Dst: v, Type: m.MsgType, Topic: m.Topic, Data: m.Data, Tag: "outsider-replay"})
 				}
@@ -208,6 +224,25 @@ func (w *oworld) matchPayload(data []byte) (backend.Payload, bool) {
 	return backend.Payload{}, false
 }
 
+// vouchesFor: no filter, or the acknowledgement contains the digest of the version the plan wants vouched at that node.
+func (w *oworld) vouchesFor(plan *byzPlan, node uint16, ack []byte) bool {
+	v, filtered := plan.ReflectOnlyVersion[node]
+	if plan.ReflectOnlyVersion == nil {
+		return true
+	}
+	if !filtered {
+		return false
+	}
+	w.rmu.Lock()
+	data := w.vdata[v]
+	w.rmu.Unlock()
+	if data == nil {
+		return false
+	}
+	d1, d2 := sha256.Sum256(data), sha256.Sum256(data[1:])
+	return bytes.Contains(ack, d1[:]) || bytes.Contains(ack, d2[:])
+}
+
 func (w *oworld) isPayload(data []byte) bool { _, ok := w.matchPayload(data); return ok }
 
 func (w *oworld) payloadVersion(data []byte) (backend.Payload, bool) { return w.matchPayload(data) }
@@ -231,6 +266,19 @@ func (w *oworld) byzInterceptor(id uint16, plan *byzPlan) simnet.Interceptor {
 				outs = append(outs, simnet.Outgoing{Dst: d, Type: typ, Topic: topic, Data: data})
 			}
 			return outs
+		}
+		if p.Kind == 'B' {
+			w.rmu.Lock()
+			if w.vdata == nil {
+				w.vdata = map[uint8][]byte{}
+			}
+			w.vdata[p.Version] = append([]byte{}, data...)
+			w.rmu.Unlock()
+		}
+		if ca, ok := plan.CopyAs[p.Version]; ok && p.Kind == 'B' {
+			for _, d := range ca.To {
+				n.Inject(ca.As, simnet.Outgoing{Dst: d, Type: typ, Topic: topic, Data: data, Tag: fmt.Sprintf("v%d-as-%d", p.Version, ca.As)})
+			}
 		}
 		for _, d := range dsts {
 			if plan.WithholdPayloadFrom[d] {
